@@ -1,4 +1,5 @@
 import OdfProofs.Package4
+import OdfProofs.TableObj
 
 /-!
 # C15 — reading, searching and exporting a document never changes it (package layer)
@@ -61,5 +62,66 @@ theorem reads_keep_document (ns : List Nat) (d : Doc) (m : Nat) :
 example :
     let d := Doc.ofPath [(0, .raw 1), (2, .raw 2), (9, .raw 4)]
     ((d.parse 2).2.parsed ≠ d.parsed) ∧ ((d.parse 2).2.view 2 = d.view 2) := by decide +kernel
+
+/-! ## the table object layer: reads that fill the caches of wrapper objects
+
+`Table.get_value`, `get_cell`, `get_row`, `get_row_values` are not pure either: they create `Row` / `Cell`
+wrappers and keep them (`_indexes["_tmap"]`, `_indexes["_rmap"]`).  In `OdfModel/TableObj.lean` these
+caches are part of the state; the theorems say that whatever sequence of such reads is made, the
+XML and the position maps of the table are untouched, every answer is the answer of a table that
+caches nothing, and asking again gives the same answer. -/
+open Odf.Rle Odf.Table Odf.TableObj
+
+theorem frun_reads (ops : List OOp) (h : muts ops = []) (t : Tbl) : ∃ ans, frun t ops = some (t, ans) := by
+  induction ops with
+  | nil => exact ⟨[], rfl⟩
+  | cons op rest ih =>
+    cases op with
+    | edit m => simp [muts] at h
+    | readValue x y =>
+      obtain ⟨ans, e⟩ := ih (by simpa [muts] using h)
+      exact ⟨[getValue t x y] :: ans, by simp only [frun, fstepAll, Option.bind_some, e, Option.map_some]⟩
+    | readRow y =>
+      obtain ⟨ans, e⟩ := ih (by simpa [muts] using h)
+      exact ⟨rowValuesFresh t y :: ans, by simp only [frun, fstepAll, Option.bind_some, e, Option.map_some]⟩
+    | touchRow y =>
+      obtain ⟨ans, e⟩ := ih (by simpa [muts] using h)
+      exact ⟨[] :: ans, by simp only [frun, fstepAll, Option.bind_some, e, Option.map_some]⟩
+
+/-- **any sequence of table reads** (values, rows, row objects) through the wrapper caches leaves the XML and
+    the position maps of the table as they were, and answers what a table that caches nothing answers -/
+theorem table_reads_keep_document (ops : List OOp) (hr : muts ops = []) (o : OTbl) (hc : CacheOk o)
+    (hi : Inv o.t) (hfit : GridFit (absT o.t)) :
+    ∃ o' answers, orun o ops = some (o', answers) ∧ o'.t = o.t ∧ frun o.t ops = some (o.t, answers) ∧ CacheOk o' := by
+  obtain ⟨o', ans, e, f, c, _⟩ := cached_history ops o hc hi hfit (by rw [hr]; intro op hop; cases hop) (by
+    intro k hk
+    rw [hr] at hk ⊢
+    simp only [List.length_nil, Nat.le_zero_eq] at hk
+    subst hk
+    exact inv_noLimbo o.t hi)
+  obtain ⟨ans2, f2⟩ := frun_reads ops hr o.t
+  rw [f2] at f
+  simp only [Option.some.injEq, Prod.mk.injEq] at f
+  obtain ⟨ht, ha⟩ := f
+  exact ⟨o', ans, e, ht.symm, by rw [f2, ha], c⟩
+
+/-- asking a value twice: the second answer (served from the caches the first call filled) is the first -/
+theorem table_value_twice_same (o : OTbl) (hc : CacheOk o) (x y : Int) :
+    (oGetValue (oGetValue o x y).2 x y).1 = (oGetValue o x y).1 := by
+  obtain ⟨h1, h2, h3⟩ := oGetValue_ok o hc x y
+  obtain ⟨h4, _, _⟩ := oGetValue_ok (oGetValue o x y).2 h3 x y
+  rw [h4, h2, h1]
+
+theorem table_row_twice_same (o : OTbl) (hc : CacheOk o) (hi : Inv o.t) (y : Int) :
+    (oGetRowValues (oGetRowValues o y).2 y).1 = (oGetRowValues o y).1 := by
+  obtain ⟨h1, h2, h3⟩ := oGetRowValues_ok o hc hi y
+  obtain ⟨h4, _, _⟩ := oGetRowValues_ok (oGetRowValues o y).2 h3 (h2 ▸ hi) y
+  rw [h4, h2, h1]
+
+/-! non-vacuity: the reads do change the object (its caches), not the table -/
+example :
+    let o := parsed (parse [(0, 2)] [([(1, 1), (0, 1)], 2), ([(2, 2)], 1)])
+    ((orun o [.readValue 0 1, .readRow 2, .touchRow 0]).map (fun r => (r.1.tcache.length, r.2))) = some (2, [[1], [2, 2], []]) := by
+  decide +kernel
 
 end Odf.C15
